@@ -37,6 +37,16 @@ def gen_rounds(seed, tier, run):
         bits = [rng.randrange(2) for _ in range(prod(sh))]
         for ax in [None] + list(range(-n, n)) + [n]:
             out.append(f"pack_bits {arr(sh, bits)} {opt(ax)} {rng.choice(['z0', 'z1'])}")
+    # longer axes and more entries behind the axis
+    for sh in ([17], [33], [2, 17], [17, 2], [9, 8], [4, 3, 3], [3, 2, 4], [2, 2, 3, 2], [64]):
+        n = len(sh)
+        a = arr(sh, [rng.randrange(256) for _ in range(prod(sh))])
+        for ax in [None] + list(range(-n, n)):
+            for o in ("z0", "z1"):
+                rts.append((len(out), ax, o))
+                out.append(f"unpack_bits {a} {opt(ax)} n {o}")
+            out.append(f"unpack_bits {a} {opt(ax)} {z(rng.choice([3, 9, 17, -5]))} z{rng.randrange(2)}")
+            out.append(f"pack_bits {arr(sh, [rng.randrange(2) for _ in range(prod(sh))])} {opt(ax)} z{rng.randrange(2)}")
     for L in range(1, 41):
         bits = [rng.randrange(2) for _ in range(L)]
         for o in ("z0", "z1"):
